@@ -202,8 +202,17 @@ def canary_unit(unit):
         return None
     lines = u.text().split('\n')
     targets = []
+    lemma_targets = []
     for f in u.funcs:
-        if f.stub or getattr(f, 'is_spec_side', False):
+        if getattr(f, 'is_spec_side', False):
+            # proof lemmas: `assert(false)` at the END of the body must fail, otherwise the lemma's
+            # hypotheses (requires + the trusted facts it invokes) are contradictory and it proves nothing
+            if re.match(r'lemma_\w+$', f.name.split('::')[-1]):
+                seg = '\n'.join(lines[f.start - 1:f.end])
+                if re.search(r'\bproof\s+fn\b', seg.split('{', 1)[0]):
+                    lemma_targets.append(f)
+            continue
+        if f.stub:
             continue
         # body '{' = first line at/after f.start whose text, scanning with masks, opens the fn body
         txt = '\n'.join(lines[f.start - 1:f.end])
@@ -231,9 +240,17 @@ def canary_unit(unit):
         ln = f.start - 1 + txt.count('\n', 0, j)
         col = j - (txt.rfind('\n', 0, j) + 1)
         targets.append((f, ln, col))
+    for f in lemma_targets:
+        # last '}' of the item closes the body
+        ln = f.end - 1
+        col = lines[ln].rfind('}')
+        if col < 0:
+            continue
+        targets.append((f, ln, col - 1))
     for f, ln, col in sorted(targets, key=lambda t: -t[1]):
         L = lines[ln]
-        lines[ln] = L[:col + 1] + ' proof { assert(false); } ' + L[col + 1:]
+        ins = ' assert(false); ' if f in lemma_targets else ' proof { assert(false); } '
+        lines[ln] = L[:col + 1] + ins + L[col + 1:]
     wd = os.path.join(WORK, 'v', '%s.canary.%d' % (unit, os.getpid()))
     try:
         r = verus.run('\n'.join(lines), wd, unit, census=False)
